@@ -28,6 +28,7 @@ UNIT = dict(
         "RetryPolicy::new": dict(file="rtpolicy"),
         "RetryLayer::new": dict(file="rtlayer"),
         "RetryConfigBuilder::new": dict(file="rtconfig", rules=[("sub", "R6-name", r"\"[^\"]*\"\.to_string\(\)", "vx_wrap()", 1), ("sub", "R16-phantom", r"_phantom: PhantomData,", "", 1)]),
+        "RetryConfigBuilder::default@Default": dict(file="rtconfig"),
         "RetryConfigBuilder::max_attempts": setter("rtconfig"),
         "RetryConfigBuilder::max_attempts_fn": setter("rtconfig", WRAP),
         "RetryConfigBuilder::fixed_backoff": setter("rtconfig"),
